@@ -1116,6 +1116,10 @@ impl ChainListener for ChainMonitor {
         // update the saw_block flag, in case the listener saw a block start event
         state.saw_block = listener.saw_block;
     }
+
+    fn on_streamed_block_abort(&self) {
+        *self.decode_state.lock().expect("lock") = None;
+    }
 }
 
 impl SendSync for ChainMonitor {}
